@@ -102,17 +102,20 @@ Flush == /\ phase = "running" /\ queued # <<>>
          /\ Write(FlushOps(queued, showCursor)) /\ queued' = <<>>
          /\ UNCHANGED <<cfg, phase, tio, mouseOn, showCursor, listener, children, temps, pending, how, dev>>
 
-Paint == /\ phase = "running" /\ Len(queued) < QMax /\ (IF queued = <<>> THEN TRUE ELSE queued[Len(queued)] # Draw)
+Paint == /\ phase = "running" /\ queued = <<>>
          /\ queued' = Append(queued, Draw) /\ out' = <<>>
          /\ UNCHANGED <<cfg, phase, tio, scr, mouseOn, showCursor, listener, children, temps, pending, how, dev>>
 
 ToggleCursor == /\ phase = "running" /\ Len(queued) < QMax          \* hide-input / show-input / --no-input
+                /\ \A i \in 1..Len(queued) : queued[i].m # "cursor"  \* (model bound: one pending toggle)
                 /\ showCursor' = ~showCursor /\ queued' = Append(queued, Op("cursor", ~showCursor)) /\ out' = <<>>
                 /\ UNCHANGED <<cfg, phase, tio, scr, mouseOn, listener, children, temps, pending, how, dev>>
 
 (* n temp files for the placeholders of a command started now *)
 FreeTemps == {i \in TempIds : \A t \in temps : t.id # i}
-MakeTemps(k, n) == \E ids \in SUBSET FreeTemps : Cardinality(ids) = n /\ temps' = temps \cup {[id |-> i, owner |-> k] : i \in ids}
+(* the n smallest free ids (which id a file gets is immaterial) *)
+MakeTemps(k, n) == LET ids == {i \in FreeTemps : Cardinality({j \in FreeTemps : j < i}) < n}
+                   IN temps' = temps \cup {[id |-> i, owner |-> k] : i \in ids}
 
 StartChild(k, n) ==
     /\ k \notin children /\ Cardinality(children) < MaxChildren /\ n <= Cardinality(FreeTemps)
